@@ -2,10 +2,13 @@
 
 pub mod boardprops;
 pub mod eng;
+pub mod evalprop;
 pub mod explore;
+pub mod fenprop;
 pub mod oracle;
 pub mod report;
 pub mod seeds;
+pub mod tablesprop;
 
 pub struct Args {
     pub cmd: String,
@@ -52,6 +55,9 @@ pub fn main() -> i32 {
             }
         },
         "C01" | "C02" | "C03" | "C04" | "C05" => boardprops::run(&args),
+        "C06" => tablesprop::run(&args),
+        "C07" => fenprop::run(&args),
+        "C17" => evalprop::run(&args),
         "replay" => {
             let Some(p) = args.rest.first() else {
                 eprintln!("usage: verif replay <file>");
@@ -77,6 +83,8 @@ fn replay(path: &str) -> i32 {
     let prop = doc.get("property").and_then(|x| x.str()).unwrap_or("").to_string();
     match prop.as_str() {
         "C01" | "C02" | "C03" | "C04" | "C05" => boardprops::replay(&prop, &doc),
+        "C07" => fenprop::replay(&doc),
+        "C17" => evalprop::replay(&doc),
         _ => {
             eprintln!("no replay for property {prop}");
             2
